@@ -136,7 +136,8 @@ class World:
         import dawgie.pl.schedule as sch  # pylint: disable=import-outside-toplevel
 
         self.reactor.reset()
-        self.reactor.rightNow = 0.0  # every history starts at the same virtual instant (replayable timers)
+        # every history starts at a definite virtual instant (replayable timers): the epoch, or where the workload says
+        self.reactor.rightNow = float(getattr(self, 'start_at', 0.0))
         self.ctx.git_rev = 'rev0'  # (a reload of the previous history moved it)
         farm.clear()
         farm._reject.clear()  # pylint: disable=protected-access
